@@ -85,6 +85,9 @@ func litClasses(text string, o *pbt.Rec) (nontrivial bool) {
 		"raw-tab":                    {"\t"},
 		"raw-nonascii":               {"\xc3\xa9", "\xf0\x9f\x98\x80", "\xe2\x80\xa8", "\xc2\xa0"},
 		"raw-bom":                    {"\xef\xbb\xbf"},
+		"del":                        {"\x7f"},
+		"c0-control":                 {"\x01", "\x07", "\x0b", "\x1b", "\x1f", "\x08", "\x0c"},
+		"astral-nonprintable":        {"\xf3\xa0\x80\x81", "\xf4\x8f\xbf\xbf", "\xf0\x9f\xbf\xbe", "\xf0\xbf\xbf\xbd"},
 		"block-string":               {`"""`},
 		"block-escaped-triple-quote": {bs + `"""`},
 		"exponent":                   {"e+", "e-", "E+", "E-", "e1", "E1", "e5", "E5", "e0", "e4"},
@@ -157,6 +160,9 @@ func checkCase(c Case, o *pbt.Rec) pbt.Verdict {
 	case "null":
 		rawVars = []byte("null")
 	}
+	if c.Lenient {
+		return checkLenient(&c, rawVars, o)
+	}
 	want, err := evalOperation(s, &c, c.Query, varsObj)
 	if err != nil {
 		// the generator claims valid-by-construction and the reference disagrees: a harness bug
@@ -166,6 +172,9 @@ func checkCase(c Case, o *pbt.Rec) pbt.Verdict {
 	}
 	o.Label("varsform:" + c.VarsForm)
 	o.Labelf("fields:%d", len(c.Fields))
+	if collides(&c) {
+		o.Label("family:colliding-spellings")
+	}
 	nontrivial := false
 	lits := map[string]*ir.Value{}
 	for _, fu := range c.Fields {
@@ -307,12 +316,77 @@ func checkCase(c Case, o *pbt.Rec) pbt.Verdict {
 	return pbt.OK
 }
 
+// checkLenient: the document is not valid GraphQL (bytes that are not UTF-8 inside a block
+// string). It may be rejected; if it is admitted, what the gateway exposes and forwards must
+// still be JSON, and nothing may panic.
+func checkLenient(c *Case, rawVars []byte, o *pbt.Rec) pbt.Verdict {
+	if _, err := ir.ParseOperations(c.Query, ir.LexOpts{}); err == nil {
+		o.Discard("lenient-case-is-valid")
+		return pbt.OK
+	}
+	o.Label("family:invalid-utf8")
+	rig, err := ir.RigFor(&c.Schema)
+	if err != nil {
+		return pbt.Bad("cannot build an engine: %v", err)
+	}
+	adm := rig.AdmitNoRemap(c.Query, rawVars, "")
+	if adm.Panic != "" {
+		return pbt.Bad("normalization panicked on %q: %s", c.Query, adm.Panic)
+	}
+	if adm.Stage != "" {
+		o.Label("invalid-utf8:rejected")
+		return pbt.OK
+	}
+	o.Label("invalid-utf8:admitted")
+	if after := string(adm.Request.Variables); strings.TrimSpace(after) != "" {
+		if _, err := ir.ParseJSON(after); err != nil {
+			return pbt.Bad("admitted document %q: variables after normalization are not valid JSON (%v): %q", c.Query, err, after)
+		}
+	}
+	res := rig.Execute(c.Query, rawVars, "")
+	if res.Panic != "" {
+		return pbt.Bad("Execute panicked on %q: %s", c.Query, res.Panic)
+	}
+	for _, up := range res.Upstream {
+		if up.BodyErr != nil {
+			return pbt.Bad("admitted document %q: subgraph request body is malformed (%v): %q", c.Query, up.BodyErr, up.Body)
+		}
+	}
+	return pbt.OK
+}
+
 func renderExp(c *Case, m map[string]expectation) string {
 	var parts []string
 	for _, fu := range c.Fields {
 		parts = append(parts, fu.Key+"="+m[fu.Key].String())
 	}
 	return strings.Join(parts, " ")
+}
+
+// collides: two arguments of equal type where one is a string literal whose content is the
+// JSON text of the other (modulo white space).
+func collides(c *Case) bool {
+	for i, a := range c.Fields {
+		for j, b := range c.Fields {
+			if i == j || a.Mode != "literal" || b.Mode != "literal" || c.Schema.Echo(a.Echo).Arg.Type != c.Schema.Echo(b.Echo).Arg.Type {
+				continue
+			}
+			la, err1 := ir.ParseLiteral(a.Arg, ir.LexOpts{})
+			lb, err2 := ir.ParseLiteral(b.Arg, ir.LexOpts{})
+			if err1 != nil || err2 != nil {
+				continue
+			}
+			for la.K == ir.VList && lb.K == ir.VList && len(la.L) == 1 && len(lb.L) == 1 {
+				la, lb = la.L[0], lb.L[0]
+			}
+			if la.K == ir.VStr && lb.K != ir.VStr && lb.K != ir.VVar {
+				if v, err := ir.ParseJSON(la.S); err == nil && ir.Canon(v) == ir.Canon(lb) {
+					return true
+				}
+			}
+		}
+	}
+	return false
 }
 
 func firstWords(s string, n int) string {
